@@ -96,7 +96,10 @@ def R(quick, thorough_mult=8):
 
 def _plan(prop, q, n):
     if prop == "C01":
-        return [storm(NORMAL, 30000 if q else 300000, n, 0, 24 if q else 40),
+        extra = []
+        if not q:  # the shipped flags (-O2 -DNDEBUG, no sanitizer)
+            extra = [storm(NORMAL, 100000, n, 0, 32, "rel20")]
+        return extra + [storm(NORMAL, 30000 if q else 300000, n, 0, 24 if q else 40),
                 storm(NORMAL, 12500 if q else 125000, n, 1, 24 if q else 40)]
     if prop == "C02":
         st = [storm(ALL, 25000 if q else 250000, n, 1, 24 if q else 40)]
@@ -114,7 +117,11 @@ def _plan(prop, q, n):
     if prop == "C05":
         return [sweep(instrumented(NORMAL), 15000 if q else 100000, n, D.MASK_C05)]
     if prop == "C06":
-        return [sweep(instrumented(NORMAL), 4000 if q else 30000, n, D.MASK_ALL, pairs=1),
+        extra = []
+        if not q:  # the documented opt-out build: only the basic guarantee is promised, and it must hold
+            extra = [storm(packs("core"), 40000, n, 1, 32, "nostrong20"),
+                     sweep(packs("core"), 2000, n, D.MASK_ALL, pairs=1, flavour="nostrong20")]
+        return extra + [sweep(instrumented(NORMAL), 4000 if q else 30000, n, D.MASK_ALL, pairs=1),
                 storm(instrumented(NORMAL), 12500 if q else 125000, n, 1, 24 if q else 40)]
     if prop == "C07":
         return [storm(ALLOCU + CORE, 30000 if q else 300000, n, 0, 24 if q else 40),
@@ -244,7 +251,8 @@ def run_check(prop, tier, seed):
         fl = st["flavour"]
         if fl not in binaries:
             try:
-                binaries[fl] = B.build(fl, ALL if fl in ("asan20", "dbg20", "rel20") else st["universes"])
+                binaries[fl] = B.build(fl, ALL if fl in ("asan20", "dbg20", "rel20") else
+                                       (packs("core") if fl == "nostrong20" else st["universes"]))
             except B.BuildError as e:
                 print("[check %s] build failed: %s" % (prop, e))
                 print(e.output[-3000:])
